@@ -274,7 +274,7 @@ func init() {
 			schemas = append(schemas, "schema: '1.2'", "schema: \"1.2\"", "schema: !!str 1.2")
 		}
 		contents := []string{"contents:\n  - a.fga\n  - b/c.fga", "contents: [a.fga, 'b.fga']", "contents: a.fga", "", "contents:\n  - 1\n  - a.fga", "contents:\n  - [a.fga]\n  - {x: y}",
-			"contents:\n  - &a a.fga\n  - *a", "contents:\n  - \"a\\\\b.fga\"\n  - ../x.fga\n  - y.txt", "contents: []", "contents:\n  - |\n    a.fga\n  - >-\n    b.fga", "contents:\n  -   x.fga # c\n  - 'y z.fga'",
+			"contents:\n  - &a a.fga\n  - *a", "contents:\n  - &core core.fga\n  - *core\n  - wiki.fga", "contents: [core.fga, *s, wiki.fga]", "contents:\n  - a.fga\n  - *s", "contents:\n  - \"a\\\\b.fga\"\n  - ../x.fga\n  - y.txt", "contents: []", "contents:\n  - |\n    a.fga\n  - >-\n    b.fga", "contents:\n  -   x.fga # c\n  - 'y z.fga'",
 			"contents:\n  - null\n  - true\n  - ~", "contents: !!seq\n  - !!str 5.fga"}
 		nm := c.Pick(300, 3000)
 		for i := 0; i < nm; i++ {
@@ -296,6 +296,9 @@ func init() {
 				continue
 			}
 			c.D.Add("corr:modfile/manifests", L("modfile", nodeSexp(&shape.Schema), nodeSexp(&shape.Contents)), res.Out, map[string]string{"manifest": data})
+			if res.Accepted && shape.Contents.Kind == yaml.SequenceNode && len(res.Values) != len(shape.Contents.Content) {
+				c.OracleFail("c15:manifest", map[string]any{"manifest": data}, fmt.Sprintf("the manifest lists %d entries and is accepted with %d paths: an entry was silently dropped or invented", len(shape.Contents.Content), len(res.Values)), res.Out)
+			}
 			if res.Accepted {
 				if res.Schema.Value != "1.2" {
 					c.OracleFail("c15:manifest", map[string]any{"manifest": data}, "accepted manifest whose schema is not 1.2", res.Out)
